@@ -12,3 +12,6 @@ import GontainerModel.Props.C09
 #print axioms GM.C09.split_service
 #print axioms GM.C09.split_decorators
 #print axioms GM.C09.readAll_append
+#print axioms GM.C09.files_read_in_documented_order
+#print axioms GM.C09.read_order_spelled_out
+#print axioms GM.C09.byte_order_examples
